@@ -682,6 +682,7 @@ fn main() {
                 }
             }
             writeln!(out, "{} {}", id, obs.join(" ")).unwrap();
+            out.flush().unwrap();
             continue;
         }
         if toks.len() > 1 && toks[1] == "T" {
@@ -701,6 +702,7 @@ fn main() {
             let s = capi_threads(&spec, seed);
             let snap = capi_op("snap");
             writeln!(out, "{} {} / {} / {}", id, pre, s, snap).unwrap();
+            out.flush().unwrap();
             continue;
         }
         clock::set_ns(0);
@@ -724,9 +726,11 @@ fn main() {
         }
         if panicked {
             writeln!(out, "{} {}", id, obs.join(" ")).unwrap();
+            out.flush().unwrap();
         } else {
             let fs = final_state(&mut ctx.dmd);
             writeln!(out, "{} {} | {}", id, obs.join(" "), fs).unwrap();
+            out.flush().unwrap();
         }
     }
     out.flush().unwrap();
